@@ -970,7 +970,16 @@ func (e *Exec) convert(v Value, from, to types.Type) Value {
 		tw, _, ok := intWidth(to)
 		if !ok {
 			if b, isb := to.Underlying().(*types.Basic); isb && b.Kind() == types.String {
-				e.unsupported("int to string conversion")
+				// string(rune): UTF-8 encoding (length depends on the value: forks)
+				if _, fs, _ := intWidth(from); fs && x.w < 32 {
+					x = e.st.Sext(32, x)
+				}
+				bs := e.utf8Encode(x, nil)
+				arr := e.st.ConstArr(bytesSort, 0)
+				for i, t := range bs {
+					arr = e.st.StoreArr(arr, e.c64(int64(i)), t)
+				}
+				return &StringV{isSym: true, arr: arr, n: e.c64(int64(len(bs)))}
 			}
 			e.unsupported("convert int to " + to.String())
 		}
